@@ -53,6 +53,9 @@ claimed = {
  "C16": dict(
    text="Lean 4 proof on plain 64K RAM with the register block in one page: after a store to a multiplier operand byte the four result bytes hold the little-endian 32-bit product of the two 16-bit operands as they are after that store, the byte itself holds the stored value, nothing else changes (C16_mul, C16_mul_data, all operand values); divider likewise with quotient/remainder and the zero-divisor case (C16_div, C16_div_data); units react exactly to their own four bytes and only when enabled (C16_enable); every other store, result registers included, is a plain store (C16_other). Tie: differential on machines built from configurations with all flag values and many bases.",
    technique="Lean 4 proof of the coprocessor handlers over function-update memory + differential store sequences"),
+ "C18": dict(
+   text="Lean 4 proof on a finite-map model of the directory, for every directory and arguments: a failing newcase leaves the directory unchanged, a successful one changes no existing file, failure exactly when case file, script or to-be-created driver exist (C18_add_fail, C18_add_fresh, C18_add_exact); every file delcase removes other than the named case file is the deleted case's driver or script and is referenced exactly once over all cases in either role (C18_del_safe, all branches incl. error paths); iteration enumerates exactly the *.json names with non-empty stem (C18_iter). Tie: operation-sequence differential on real directories.",
+   technique="Lean 4 proof over a finite-map directory model + operation-sequence differential on real directories"),
 }
 
 checks = []
